@@ -83,7 +83,13 @@ pub fn job_c08(out_dir: &str, tier: &str, seed: u64) {
                     }
                 }
             }
-            if tl.iter().any(|e| e["e"] == "ret" && e["res"] != "ok") { continue; }
+            if tl.iter().any(|e| e["e"] == "ret" && e["res"] != "ok") {
+                n += 1;
+                let why = tl.iter().filter(|e| e["e"] == "ret" && e["res"] != "ok").map(|e| e["res"].as_str().unwrap_or("?").to_string()).next().unwrap_or_default();
+                let rec = json!({"id": format!("c08-{n}"), "failed": why});
+                sh.push(&rec, &json!({"id": rec["id"], "cfg": cfg, "input": input, "cuts": [], "api": api, "arg": arg, "arg2": arg2}), None, true);
+                continue;
+            }
             if res == "err" { rejected += 1; }
             // in a legacy encoding only ASCII arguments are compared byte-wise (C13 decides the encoding of the rest)
             if enc != "utf-8" && !(arg.is_ascii() && arg2.is_ascii()) && res == "ok" { continue; }
